@@ -318,3 +318,44 @@ def gen_mprog(rng, length, counter=None, cols=None, eng=None, allow_binary=True,
             o, cur = gen.gen_op(rng, cur, weights)
             p = ("un", o, gen_opts(rng, here, p_opts), p)
     return p, cur
+
+
+def forced_backtrack_cases(rng, n):
+    """Shapes the uniform generator reaches too rarely: a new operation whose commutation modifies the existing one
+    (calculation or join past a projection, projection past a calculation) while backtracking cannot complete —
+    the source is a leaf / binary node, or the preferred engine is a third one — or completes as a no-op."""
+    out = []
+    for _ in range(n):
+        cols = gen.gen_schema(rng, maxk=3, maxn=1, allow_empty=False)
+        src_eng, mid_eng = rng.sample(ENGINES, 2)
+        third = [e for e in ENGINES if e not in (src_eng, mid_eng)][0]
+        leaf = gen_leaf(rng, 1, cols, src_eng, special=0)
+        base = ("xfer", mid_eng, leaf) if rng.random() < 0.8 else leaf
+        keep = sorted(c for c in cols if rng.random() < 0.6) or [sorted(cols)[0]]
+        kind = rng.choice(["calc_past_proj", "join_past_proj", "proj_past_calc", "sort_past_sort", "calc_recreates"])
+        pref = rng.choice([src_eng, third])
+        opts = (pref, True, rng.random() < 0.5, False)
+        if kind == "calc_past_proj":
+            p = ("un", ("proj", keep), DEFAULT, base)
+            t = gen.fresh_tag(rng, set(cols))
+            p = ("un", ("calc", t, gen.gen_expr(rng, keep, 1, need_col=True)), opts, p)
+        elif kind == "calc_recreates":
+            p = ("un", ("proj", keep), DEFAULT, base)
+            hidden = [c for c in cols if c not in keep]
+            t = rng.choice(hidden) if hidden else gen.fresh_tag(rng, set(cols))
+            p = ("un", ("calc", t, gen.gen_expr(rng, keep, 1, need_col=True)), opts, p)
+        elif kind == "join_past_proj":
+            p = ("un", ("proj", keep), DEFAULT, base)
+            ocols = sorted({c for c in keep if rng.random() < 0.7} | {gen.fresh_tag(rng, set(cols))})
+            other = gen_leaf(rng, 2, ocols, rng.choice(ENGINES), special=0)
+            p = ("join", None, True, rng.random() < 0.6, p, other)
+        elif kind == "proj_past_calc":
+            t = gen.fresh_tag(rng, set(cols))
+            p = ("un", ("calc", t, gen.gen_expr(rng, cols, 1, need_col=True)), DEFAULT, base)
+            p = ("un", ("proj", sorted(set(keep) | ({t} if rng.random() < 0.5 else set()))), opts, p)
+        else:
+            c = sorted(cols)[0]
+            p = ("un", ("sort", [(("ref", c), True)]), DEFAULT, base)
+            p = ("un", ("sort", [(("ref", c), False)]), opts, p)
+        out.append(p)
+    return out
